@@ -27,9 +27,51 @@ def buffered_types(fb):
     return cr, out
 
 
-def inv_facts():
+def shape(fb, cr, ty):
+    """which leaves of the type are the (block, position) pair: read off get_state, which hands out
+    a reference to a block-sized byte leaf of self and the value of a size leaf.  Field names and
+    nesting (a register struct inside the type) are the code's business."""
+    if "shape" in ty:
+        if ty["shape"] is None:
+            raise Undecided(ty["shape_err"])
+        return ty["shape"]
+    ty["shape"] = None
+    ty["shape_err"] = "get_state does not return (&<byte leaf of self>, <size leaf of self>)"
+    ip, pg = run_plain(fb, cr, ty["meths"]["get_state"], ["self"], base_ctx(), base_facts())
+    if len(pg) != 1:
+        raise Undecided("several paths in get_state")
+    ret = pg[0]["ret"]
+    ok = ret[0] == "tuple" and len(ret[1]) == 2 and ret[1][0][0] == "ref" and ret[1][0][1].cell == ("A", "self") \
+        and ret[1][0][1].path and all(x[0] == "f" for x in ret[1][0][1].path) and ret[1][1][0] == "size"
+    if ok:
+        bpath = tuple(str(x[1]) for x in ret[1][0][1].path)
+        sy = list(ret[1][1][1].symbols())
+        ok = len(sy) == 1 and ret[1][1][1] == Lin.sym(sy[0]) and sy[0].startswith("self.")
+    if ok:
+        ppath = tuple(sy[0].split(".")[1:])
+        bl = leaf(pg[0]["cells"]["self"], bpath)
+        pl = leaf(pg[0]["cells"]["self"], ppath)
+        ok = bl is not None and bl[0] == "bytes" and pl is not None and pl[0] == "size" and pl[1] == Lin.sym(sy[0]) \
+            and bl[1] == T.bvar("self." + ".".join(bpath))
+    if not ok:
+        ty["shape_ret"] = ret
+        raise Undecided(ty["shape_err"])
+    ty["shape_ret"] = ret
+    ty["shape"] = {"bpath": bpath, "ppath": ppath, "bvar": "self." + ".".join(bpath), "psym": sy[0]}
+    return ty["shape"]
+
+
+def leaf(v, path):
+    for part in path:
+        if v is None or v[0] != "struct":
+            return None
+        v = v[2].get(part, v[2].get(int(part)) if part.isdigit() else None)
+    return v
+
+
+def inv_facts(psym="self.pos"):
     F = base_facts()
-    pos = Lin.sym("self.pos")
+    pos = Lin.sym(psym)
     F.add_ge(pos)
     F.add_ge(BS - 1 - pos)      # struct invariant: pos < block size
     return F
@@ -39,21 +81,22 @@ def run_proc(fb, cr, ty):
     key = (id(fb), ty["adt"]["path"])
     if key not in _cache:
         try:
-            ip, paths = run_plain(fb, cr, ty["proc"], ["self", "data"], base_ctx(), inv_facts())
+            sh = shape(fb, cr, ty)
+            ip, paths = run_plain(fb, cr, ty["proc"], ["self", "data"], base_ctx(), inv_facts(sh["psym"]))
             _cache[key] = (paths, None)
         except Undecided as e:
             _cache[key] = (None, str(e))
     return _cache[key]
 
 
-def expected(dir_, p, F):
+def expected(dir_, p, F, sh):
     """stream definition of CFB for one call, from state (Kb, pos) on `data` of length n.
     returns (out, K', pos') for the path p (short / long decided by the path facts)."""
-    pos = Lin.sym("self.pos")
+    pos = Lin.sym(sh["psym"])
     n = Lin.sym("data.len")
     T.declare_var("data", n)
-    T.declare_var("self.iv", BS)
-    Kb = T.bvar("self.iv")
+    T.declare_var(sh["bvar"], BS)
+    Kb = T.bvar(sh["bvar"])
     data = T.bvar("data")
     if F.prove_ge(BS - pos - n - 1):
         ks = T.bslice(Kb, pos, n, F)
@@ -115,22 +158,24 @@ def check_definition(rep, fb, rule_prefix="buf"):
             rep.undecided(rule_prefix + ".def", inst, err, loc)
             continue
         kinds = set()
+        sh = shape(fb, cr, ty)
         for p in paths:
             F = p["F"]
             try:
-                short = F.prove_ge(BS - Lin.sym("self.pos") - Lin.sym("data.len") - 1)
+                short = F.prove_ge(BS - Lin.sym(sh["psym"]) - Lin.sym("data.len") - 1)
                 kind = "short" if short else "long"
                 kinds.add(kind)
-                eo, eK, epos = expected(ty["dir"], p, F)
+                eo, eK, epos = expected(ty["dir"], p, F, sh)
                 selfv = p["cells"]["self"]
+                sblk, spos = leaf(selfv, sh["bpath"]), leaf(selfv, sh["ppath"])
                 got_o = p["cells"]["data"]
                 rep.ob(rule_prefix + ".def.out", "%s/%s" % (inst, kind), T.bequal(got_o[1], eo, F), "bytes written == CFB stream definition from state (block, pos)", loc, computed=T.bshow(got_o[1]), expected=T.bshow(eo))
-                rep.ob(rule_prefix + ".def.state", "%s/%s" % (inst, kind), T.bequal(selfv[2]["iv"][1], eK, F), "stored block == ciphertext of the partial block followed by unused keystream", loc, computed=T.bshow(selfv[2]["iv"][1]), expected=T.bshow(eK))
-                rep.ob(rule_prefix + ".def.pos", "%s/%s" % (inst, kind), selfv[2]["pos"][0] == "size" and F.prove_eq(selfv[2]["pos"][1] - epos), "position == bytes consumed of the current block", loc, computed=show_value(selfv[2]["pos"]), expected=repr(epos))
-                rep.ob(rule_prefix + ".invariant", "%s/%s" % (inst, kind), F.prove_ge(selfv[2]["pos"][1]) and F.prove_ge(BS - 1 - selfv[2]["pos"][1]), "pos < block size is preserved", loc)
+                rep.ob(rule_prefix + ".def.state", "%s/%s" % (inst, kind), T.bequal(sblk[1], eK, F), "stored block == ciphertext of the partial block followed by unused keystream", loc, computed=T.bshow(sblk[1]), expected=T.bshow(eK))
+                rep.ob(rule_prefix + ".def.pos", "%s/%s" % (inst, kind), spos[0] == "size" and F.prove_eq(spos[1] - epos), "position == bytes consumed of the current block", loc, computed=show_value(spos), expected=repr(epos))
+                rep.ob(rule_prefix + ".invariant", "%s/%s" % (inst, kind), F.prove_ge(spos[1]) and F.prove_ge(BS - 1 - spos[1]), "pos < block size is preserved", loc)
                 bad = [o for o in p["oblig"] if not o["ok"]]
                 rep.ob(rule_prefix + ".no-panic", "%s/%s" % (inst, kind), not bad, "; ".join("%s %s" % (o["kind"], o["detail"]) for o in bad[:3]) or "%d panic obligations discharged under pos < bs" % len(p["oblig"]), loc)
-            except (Undecided, KeyError) as e:
+            except (Undecided, KeyError, TypeError) as e:
                 rep.undecided(rule_prefix + ".def", inst, str(e), loc)
         rep.ob(rule_prefix + ".paths", inst, kinds == {"short", "long"}, "short and long path both analysed: %s" % sorted(kinds), loc)
 
@@ -147,7 +192,8 @@ def check_chunking(rep, fb, rule_prefix="buf.chunk"):
         if paths is None:
             rep.undecided(rule_prefix, inst, err, loc)
             continue
-        pos = Lin.sym("self.pos")
+        sh = shape(fb, cr, ty)
+        pos = Lin.sym(sh["psym"])
         n = Lin.sym("data.len")
         for p in paths:
             F = p["F"]
@@ -155,12 +201,13 @@ def check_chunking(rep, fb, rule_prefix="buf.chunk"):
                 continue
             try:
                 selfv = p["cells"]["self"]
+                sblk, spos = leaf(selfv, sh["bpath"]), leaf(selfv, sh["ppath"])
                 # (a) empty piece
                 F0 = F.copy()
                 F0.add_eq(n)
-                K0 = T.bsubst(selfv[2]["iv"][1], {}, {"data.len": ZERO}, F0)
-                T.declare_var("self.iv", BS)
-                rep.ob(rule_prefix + ".empty-identity", inst, T.bequal(K0, T.bvar("self.iv"), F0) and F0.prove_eq(selfv[2]["pos"][1] - pos), "an empty piece changes neither block nor position", loc)
+                K0 = T.bsubst(sblk[1], {}, {"data.len": ZERO}, F0)
+                T.declare_var(sh["bvar"], BS)
+                rep.ob(rule_prefix + ".empty-identity", inst, T.bequal(K0, T.bvar(sh["bvar"]), F0) and F0.prove_eq(spos[1] - pos), "an empty piece changes neither block nor position", loc)
                 # (b) short(n1) ; short(n2) == short(n1+n2)
                 n1, n2 = Lin.sym("n1"), Lin.sym("n2")
                 Fc = base_facts()
@@ -170,17 +217,17 @@ def check_chunking(rep, fb, rule_prefix="buf.chunk"):
                 Fc.add_ge(BS - 1 - pos - n1 - n2)
                 T.declare_var("d1", n1)
                 T.declare_var("d2", n2)
-                out_t, K_t = p["cells"]["data"][1], selfv[2]["iv"][1]
+                out_t, K_t = p["cells"]["data"][1], sblk[1]
                 o1 = T.bsubst(out_t, {"data": T.bvar("d1")}, {"data.len": n1}, Fc)
                 K1 = T.bsubst(K_t, {"data": T.bvar("d1")}, {"data.len": n1}, Fc)
-                o2 = T.bsubst(out_t, {"data": T.bvar("d2"), "self.iv": K1}, {"data.len": n2, "self.pos": pos + n1}, Fc)
-                K2 = T.bsubst(K_t, {"data": T.bvar("d2"), "self.iv": K1}, {"data.len": n2, "self.pos": pos + n1}, Fc)
+                o2 = T.bsubst(out_t, {"data": T.bvar("d2"), sh["bvar"]: K1}, {"data.len": n2, sh["psym"]: pos + n1}, Fc)
+                K2 = T.bsubst(K_t, {"data": T.bvar("d2"), sh["bvar"]: K1}, {"data.len": n2, sh["psym"]: pos + n1}, Fc)
                 both = T.bnorm(T.bvar("d1") + T.bvar("d2"), Fc)
                 oo = T.bsubst(out_t, {"data": both}, {"data.len": n1 + n2}, Fc)
                 KK = T.bsubst(K_t, {"data": both}, {"data.len": n1 + n2}, Fc)
                 rep.ob(rule_prefix + ".short-short.out", inst, T.bequal(T.bnorm(o1 + o2, Fc), oo, Fc), "two short pieces produce the bytes of the concatenated piece", loc, computed=T.bshow(T.bnorm(o1 + o2, Fc)), expected=T.bshow(oo))
                 rep.ob(rule_prefix + ".short-short.state", inst, T.bequal(K2, KK, Fc), "and leave the same block", loc, computed=T.bshow(K2), expected=T.bshow(KK))
-            except (Undecided, KeyError) as e:
+            except (Undecided, KeyError, TypeError) as e:
                 rep.undecided(rule_prefix, inst, str(e), loc)
 
 
@@ -189,7 +236,6 @@ def check_chunking_long(rep, fb, rule_prefix="buf.chunk"):
     one, produce the bytes and the state of the concatenated piece.  Decided by substituting the
     first call's state term into the second call's summary (same block decomposition symbols)."""
     cr, types = buffered_types(fb)
-    pos = Lin.sym("self.pos")
     n = Lin.sym("data.len")
     for ty in types:
         inst = "cfb_mode::" + ty["adt"]["path"]
@@ -200,6 +246,8 @@ def check_chunking_long(rep, fb, rule_prefix="buf.chunk"):
         if paths is None:
             rep.undecided(rule_prefix + ".compose", inst, err, loc)
             continue
+        sh = shape(fb, cr, ty)
+        pos = Lin.sym(sh["psym"])
         short = [p for p in paths if p["F"].prove_ge(BS - pos - n - 1)]
         long_ = [p for p in paths if not p["F"].prove_ge(BS - pos - n - 1)]
         if len(short) != 1 or len(long_) != 1:
@@ -211,8 +259,8 @@ def check_chunking_long(rep, fb, rule_prefix="buf.chunk"):
             if dec is None:
                 raise Undecided("no block decomposition recorded on the long path")
             m, r = dec
-            so, sK = ps["cells"]["data"][1], ps["cells"]["self"][2]["iv"][1]
-            lo_, lK = pl["cells"]["data"][1], pl["cells"]["self"][2]["iv"][1]
+            so, sK = ps["cells"]["data"][1], leaf(ps["cells"]["self"], sh["bpath"])[1]
+            lo_, lK = pl["cells"]["data"][1], leaf(pl["cells"]["self"], sh["bpath"])[1]
             n1, n2 = Lin.sym("n1"), Lin.sym("n2")
             # ---- short(n1) ; long(n2)  ==  long(n1+n2), total = (bs-pos) + m*bs + r
             Fc = pl["F"].copy()
@@ -224,11 +272,11 @@ def check_chunking_long(rep, fb, rule_prefix="buf.chunk"):
             T.declare_var("d1", n1)
             T.declare_var("d2", n2)
             T.declare_var("data", n)
-            T.declare_var("self.iv", BS)
+            T.declare_var(sh["bvar"], BS)
             o1 = T.bsubst(so, {"data": T.bvar("d1")}, {"data.len": n1}, Fc)
             K1 = T.bsubst(sK, {"data": T.bvar("d1")}, {"data.len": n1}, Fc)
-            o2 = T.bsubst(lo_, {"data": T.bvar("d2"), "self.iv": K1}, {"data.len": n2, "self.pos": pos + n1}, Fc)
-            K2 = T.bsubst(lK, {"data": T.bvar("d2"), "self.iv": K1}, {"data.len": n2, "self.pos": pos + n1}, Fc)
+            o2 = T.bsubst(lo_, {"data": T.bvar("d2"), sh["bvar"]: K1}, {"data.len": n2, sh["psym"]: pos + n1}, Fc)
+            K2 = T.bsubst(lK, {"data": T.bvar("d2"), sh["bvar"]: K1}, {"data.len": n2, sh["psym"]: pos + n1}, Fc)
             both = T.bnorm(T.bvar("d1") + T.bvar("d2"), Fc)
             oo = T.bsubst(lo_, {"data": both}, None, Fc)
             KK = T.bsubst(lK, {"data": both}, None, Fc)
@@ -244,15 +292,15 @@ def check_chunking_long(rep, fb, rule_prefix="buf.chunk"):
             T.declare_var("d1", n)
             o1 = T.bsubst(lo_, {"data": T.bvar("d1")}, None, Fd)
             K1 = T.bsubst(lK, {"data": T.bvar("d1")}, None, Fd)
-            o2 = T.bsubst(so, {"data": T.bvar("d2"), "self.iv": K1}, {"data.len": n2, "self.pos": r}, Fd)
-            K2 = T.bsubst(sK, {"data": T.bvar("d2"), "self.iv": K1}, {"data.len": n2, "self.pos": r}, Fd)
+            o2 = T.bsubst(so, {"data": T.bvar("d2"), sh["bvar"]: K1}, {"data.len": n2, sh["psym"]: r}, Fd)
+            K2 = T.bsubst(sK, {"data": T.bvar("d2"), sh["bvar"]: K1}, {"data.len": n2, sh["psym"]: r}, Fd)
             both = T.bnorm(T.bvar("d1") + T.bvar("d2"), Fd)
             T.declare_var("data", n + n2)
             oo = T.bsubst(lo_, {"data": both}, {"data.len": n + n2, rsym[0]: r + n2}, Fd)
             KK = T.bsubst(lK, {"data": both}, {"data.len": n + n2, rsym[0]: r + n2}, Fd)
             rep.ob(rule_prefix + ".long-short.out", inst, T.bequal(T.bnorm(o1 + o2, Fd), oo, Fd), "a long piece then a short piece produce the bytes of the concatenated piece", loc, computed=T.bshow(T.bnorm(o1 + o2, Fd)), expected=T.bshow(oo))
             rep.ob(rule_prefix + ".long-short.state", inst, T.bequal(K2, KK, Fd), "and leave the same block", loc, computed=T.bshow(K2), expected=T.bshow(KK))
-        except (Undecided, KeyError) as e:
+        except (Undecided, KeyError, TypeError) as e:
             rep.undecided(rule_prefix + ".compose", inst, str(e), loc)
 
 
@@ -263,18 +311,22 @@ def check_state(rep, fb, rule_prefix="buf.state"):
         inst = "cfb_mode::" + ty["adt"]["path"]
         try:
             g, f = ty["meths"]["get_state"], ty["meths"]["from_state"]
-            ip, pg = run_plain(fb, cr, g, ["self"], base_ctx(), inv_facts())
+            try:
+                sh = shape(fb, cr, ty)
+            except Undecided:
+                sh = None
+            # the exported pair is the (block, position) pair every other buf.* rule is stated over
+            rep.ob(rule_prefix + ".get", inst, sh is not None, "get_state returns (&<block leaf of self>, <position leaf of self>)", loc_of(g), computed=show_value(ty["shape_ret"]) if ty.get("shape_ret") is not None else None)
+            if sh is None:
+                continue
             ip2, pf = run_plain(fb, cr, f, ["c", "blk", "p"], base_ctx(), base_facts())
-            if len(pg) != 1 or len(pf) != 1:
+            if len(pf) != 1:
                 raise Undecided("several paths")
-            ret = pg[0]["ret"]
-            ok = ret[0] == "tuple" and ret[1][0][0] == "ref" and ret[1][0][1].cell == ("A", "self") and ret[1][0][1].path == (("f", "iv"),) \
-                and ret[1][1][0] == "size" and ret[1][1][1] == Lin.sym("self.pos")
-            rep.ob(rule_prefix + ".get", inst, ok, "get_state returns (&self.iv, self.pos)", loc_of(g), computed=show_value(ret))
             made = pf[0]["ret"]
             T.declare_var("blk", BS)
-            ok2 = made[0] == "struct" and made[2]["iv"][0] == "bytes" and T.bequal(made[2]["iv"][1], T.bvar("blk"), pf[0]["F"]) \
-                and made[2]["pos"][0] == "size" and made[2]["pos"][1] == Lin.sym("p")
+            mb, mp = leaf(made, sh["bpath"]), leaf(made, sh["ppath"])
+            ok2 = mb is not None and mp is not None and mb[0] == "bytes" and T.bequal(mb[1], T.bvar("blk"), pf[0]["F"]) \
+                and mp[0] == "size" and mp[1] == Lin.sym("p")
             rep.ob(rule_prefix + ".from", inst, ok2, "from_state stores exactly the given block and position", loc_of(f), computed=show_value(made))
         except (Undecided, KeyError, IndexError) as e:
             rep.undecided(rule_prefix, inst, str(e))
@@ -301,7 +353,9 @@ def check_init(rep, fb, rule_prefix="buf.init"):
             r = ps[0]["ret"]
             of = [f for f in ref.state_fields()][0]
             want = ref.init_leaf(of)
-            ok = r[0] == "struct" and values_equal(r[2]["iv"], want, ps[0]["F"]) and r[2]["pos"][0] == "size" and r[2]["pos"][1] == ZERO
+            sh = shape(fb, cr, ty)
+            rb, rp = leaf(r, sh["bpath"]), leaf(r, sh["ppath"])
+            ok = rb is not None and rp is not None and values_equal(rb, want, ps[0]["F"]) and rp[0] == "size" and rp[1] == ZERO
             rep.ob(rule_prefix, inst, ok, "initial state == block-level CFB initial keystream block, position 0", loc_of(b), computed=show_value(r), expected=show_value(want))
         except (Undecided, KeyError, IndexError) as e:
             rep.undecided(rule_prefix, inst, str(e))
@@ -322,8 +376,17 @@ def check_roundtrip(rep, fb, rule_prefix="inv.buf"):
     if pe is None or pd is None:
         rep.undecided(rule_prefix, inst, e1 or e2, loc)
         return
-    pos = Lin.sym("self.pos")
+    try:
+        she, shd = shape(fb, cr, enc[0]), shape(fb, cr, dec[0])
+    except Undecided as e:
+        rep.undecided(rule_prefix, inst, str(e), loc)
+        return
+    pos, posd = Lin.sym(she["psym"]), Lin.sym(shd["psym"])
     n = Lin.sym("data.len")
+    T.declare_var(she["bvar"], BS)
+    # "from equal states": the decryptor's (block, position) leaves are the encryptor's
+    same_b = {} if shd["bvar"] == she["bvar"] else {shd["bvar"]: T.bvar(she["bvar"])}
+    same_p = {} if shd["psym"] == she["psym"] else {shd["psym"]: pos}
     for p in pe:
         F = p["F"]
         short = F.prove_ge(BS - pos - n - 1)
@@ -331,13 +394,16 @@ def check_roundtrip(rep, fb, rule_prefix="inv.buf"):
         try:
             c = p["cells"]["data"][1]
             for q in pd:
-                if q["F"].prove_ge(BS - pos - n - 1) != short:
+                if q["F"].prove_ge(BS - posd - n - 1) != short:
                     continue
                 F2 = q["F"].copy()
-                lenv = {}
+                lenv = dict(same_p)
+                if same_p:
+                    F2.add_eq(posd - pos)
+                    F2.rewrites[shd["psym"]] = pos
                 if not short:
                     de = p["state"].decomp.get((n - (BS - pos), BS))
-                    dd = q["state"].decomp.get((n - (BS - pos), BS))
+                    dd = q["state"].decomp.get((n - (BS - posd), BS))
                     if de is None or dd is None:
                         raise Undecided("no decomposition")
                     for a, b in zip(dd, de):
@@ -347,15 +413,15 @@ def check_roundtrip(rep, fb, rule_prefix="inv.buf"):
                         F2.add_ge(gfact)
                     # one decomposition of the common length: the decryptor's symbols are the encryptor's
                     F2.rewrites = {k_: (v_ if k_ == "__generated__" else v_.subst(lenv)) for k_, v_ in F2.rewrites.items()}
-                back = T.bsubst(q["cells"]["data"][1], {"data": c}, lenv, F2)
+                back = T.bsubst(q["cells"]["data"][1], dict(same_b, data=c), lenv, F2)
                 T.declare_var("data", n)
                 rep.ob(rule_prefix + ".out", "%s/%s" % (inst, kind), T.bequal(back, T.bvar("data"), F2), "BufDecryptor::decrypt(BufEncryptor::encrypt(data)) normalises to data", loc, computed=T.bshow(back), expected="data")
-                Ke = p["cells"]["self"][2]["iv"][1]
-                Kd = T.bsubst(q["cells"]["self"][2]["iv"][1], {"data": c}, lenv, F2)
+                Ke = leaf(p["cells"]["self"], she["bpath"])[1]
+                Kd = T.bsubst(leaf(q["cells"]["self"], shd["bpath"])[1], dict(same_b, data=c), lenv, F2)
                 rep.ob(rule_prefix + ".state", "%s/%s" % (inst, kind), T.bequal(Ke, Kd, F2), "both sides hold the same block afterwards", loc, computed=T.bshow(Kd), expected=T.bshow(Ke))
-                pe_, pd_ = p["cells"]["self"][2]["pos"], q["cells"]["self"][2]["pos"]
+                pe_, pd_ = leaf(p["cells"]["self"], she["ppath"]), leaf(q["cells"]["self"], shd["ppath"])
                 le = {a: b for a, b in lenv.items()}
                 same_pos = pe_[0] == "size" and pd_[0] == "size" and F2.prove_eq(pe_[1] - T.lsub(pd_[1], le))
                 rep.ob(rule_prefix + ".pos", "%s/%s" % (inst, kind), same_pos, "and the same position (so the next call continues in step)", loc, computed=show_value(pd_), expected=show_value(pe_))
-        except (Undecided, KeyError) as e:
+        except (Undecided, KeyError, TypeError) as e:
             rep.undecided(rule_prefix, "%s/%s" % (inst, kind), str(e), loc)
